@@ -24,15 +24,15 @@ Proof. repeat split; vm_compute; reflexivity. Qed.
 (* writing integers: exactly the pushed value is stored, or the push is an error - for every
    integer width of the value and of the column, every Z *)
 Theorem C05_ser_int_exact : forall k w z val vals b',
-  push (VInt w z) (BdPrim k val vals) = Ok b' -> in_int k z = true /\ exists val', b' = BdPrim k val' (vals ++ [z]).
+  push (VInt w z) (BdPrim (PInt k) val vals) = Ok b' -> in_int k z = true /\ exists val', b' = BdPrim (PInt k) val' (vals ++ [z]).
 Proof. exact ser_int_exact. Qed.
-Theorem C05_ser_int_out_of_range : forall k w z val vals, in_int k z = false -> push (VInt w z) (BdPrim k val vals) = Err.
+Theorem C05_ser_int_out_of_range : forall k w z val vals, in_int k z = false -> push (VInt w z) (BdPrim (PInt k) val vals) = Err.
 Proof. exact ser_int_out_of_range. Qed.
 Theorem C05_ser_int_total : forall k w z val vals, in_int k z = true ->
-  exists val', push (VInt w z) (BdPrim k val vals) = Ok (BdPrim k val' (vals ++ [z])).
+  exists val', push (VInt w z) (BdPrim (PInt k) val vals) = Ok (BdPrim (PInt k) val' (vals ++ [z])).
 Proof. exact ser_int_total. Qed.
 Theorem C05_ser_char_exact : forall k c val vals b',
-  push (VChar c) (BdPrim k val vals) = Ok b' -> in_int k c = true /\ exists val', b' = BdPrim k val' (vals ++ [c]).
+  push (VChar c) (BdPrim (PInt k) val vals) = Ok b' -> in_int k c = true /\ exists val', b' = BdPrim (PInt k) val' (vals ++ [c]).
 Proof. exact ser_char_exact. Qed.
 
 (* error classes *)
@@ -61,7 +61,7 @@ Proof. exact de_char_valid. Qed.
 
 (* non-vacuity *)
 Example C05_example :
-  push (VInt I64 128) (BdPrim I8 (Some []) [1]%Z) = Err /\ push (VInt U64 127) (BdPrim I8 None [1]%Z) = Ok (BdPrim I8 None [1; 127]%Z) /\
+  push (VInt I64 128) (BdPrim (PInt I8) (Some []) [1]%Z) = Err /\ push (VInt U64 127) (BdPrim (PInt I8) None [1]%Z) = Ok (BdPrim (PInt I8) None [1; 127]%Z) /\
   conv_de_int (RInt U8) (-1) = Err /\ conv_de_int RChar 55296 = Err /\ conv_de_int RChar 233 = Ok (VdChar 233).
 Proof. vm_compute. repeat split; reflexivity. Qed.
 
